@@ -216,6 +216,49 @@ def main(tier, seed, replay=None):
             stats["expansion_pairs"] += 1
             if not same(base, got):
                 diffs.append((c, "validating with ont_graph=%s inference=%s differs from validating the pre-expanded graph with neither" % (ontk, inf), base, got, None))
+    # (c) SHACL rules read the union as well: what a rule derives from triples of a named graph is seen by the shapes
+    RULES_TTL = """@prefix sh: <http://www.w3.org/ns/shacl#> . @prefix ex: <http://ex.org/> . @prefix owl: <http://www.w3.org/2002/07/owl#> . @prefix xsd: <http://www.w3.org/2001/XMLSchema#> .
+ex:prefixes a owl:Ontology ; sh:declare [ sh:prefix "ex" ; sh:namespace "http://ex.org/"^^xsd:anyURI ] .
+ex:R a sh:NodeShape ; sh:targetClass ex:C0 ; sh:rule [ a sh:TripleRule ; sh:subject sh:this ; sh:predicate ex:marked ; sh:object ex:Yes ] .
+ex:R2 a sh:NodeShape ; sh:targetSubjectsOf ex:p ; sh:rule [ a sh:SPARQLRule ; sh:prefixes ex:prefixes ; sh:construct "CONSTRUCT { $this ex:linked ?o } WHERE { $this ex:p ?o . ?o ex:q ?z }" ] .
+ex:V a sh:NodeShape ; sh:targetSubjectsOf ex:marked ; sh:property [ sh:path ex:q ; sh:minCount 1 ] .
+ex:V2 a sh:NodeShape ; sh:targetSubjectsOf ex:linked ; sh:property [ sh:path ex:linked ; sh:maxCount %d ] .
+"""
+    import pyshacl
+    for j in range(120 if big else 16):
+        data, nodes, lits = S.gen_typed_data(rng, n_iri=rng.randint(3, 5), n_bn=rng.randint(0, 1), n_lit=1, n_triples=rng.randint(5, 12))
+        triples = list(data)
+        sgr = rdflib.Graph().parse(data=RULES_TTL % rng.choice([0, 0, 1]), format="turtle")
+        opts = {"advanced": True, "inference": rng.choice(["none", "none", "none", "rdfs"])}
+        if rng.random() < 0.3:
+            opts["iterate_rules"] = True
+        cr = {"sg": sgr, "data": data}
+        base = S.run_validate(distribute(rng, triples, "Graph"), sgr, **opts)
+        stats["nonconforming"] += 1 if base[0] == "ok" and not base[1] else 0
+        ro = {k: v for k, v in opts.items() if k != "advanced"}
+        try:
+            base_rules = set(pyshacl.shacl_rules(distribute(rng, triples, "Graph"), shacl_graph=sgr, **ro))
+        except Exception as e:
+            base_rules = ("err", enc.exn_name(e))
+        for kind in ("Dataset", "ConjunctiveGraph"):
+            for rep_i in range(2):
+                o2 = dict(opts)
+                if rng.random() < 0.3:
+                    o2["inplace"] = True
+                dsx = distribute(rng, triples, kind)
+                qx = quads_of(dsx)
+                got = S.run_validate(dsx, sgr, **o2)
+                stats["rule_container_pairs"] = stats.get("rule_container_pairs", 0) + 1
+                if not same(base, got):
+                    diffs.append((cr, "rules + shapes over a %s holding the same triples give another report than over the plain Graph (options %r)" % (kind, o2), base, got,
+                                  sorted("%s | %s" % (cx, " ".join(x.n3() for x in t)) for cx, t in qx)))
+                try:
+                    out = pyshacl.shacl_rules(distribute(rng, triples, kind), shacl_graph=sgr, **ro)
+                    got_rules = union_of(out)
+                except Exception as e:
+                    got_rules = ("err", enc.exn_name(e))
+                if got_rules != base_rules:
+                    diffs.append((cr, "shacl_rules() over a %s holding the same triples derives other triples than over the plain Graph (options %r)" % (kind, ro), base, base, sorted("%s | %s" % (cx, " ".join(x.n3() for x in t)) for cx, t in qx)))
     for c, what, o1, o2, quads in diffs[:8]:
         d = S.describe_case(c["sg"], c["data"], {}, o1)
         d["what"] = what
@@ -246,7 +289,7 @@ def main(tier, seed, replay=None):
         "evaluations": len(bt) + len(bq) + stats["container_pairs"] + stats["expansion_pairs"] + n,
         "distinct_nontrivial": stats["container_pairs"] + stats["expansion_pairs"],
         "rule": "(1) Tie A: recorded Clone/Mix/Infer/Write traces of Validator.run and RuleExpandRunner.run = generated programs under the content summaries; (2) callees: clone_graph, inoculate_dataset (new/own target, default or named destination), _run_pre_inference (rdfs/owlrl/both, named destination) on Datasets/ConjunctiveGraphs with random distributions (default-only, named-only, mixed, duplicated triples): union of quads after = model (dclone / dwrite); "
-                "(3) the property: random shapes/data x inference {none, rdfs, owlrl, both} x ontology {none, Graph, Dataset} x advanced x abort_on_first: the plain Graph's report = the report of 2 Dataset and 2 ConjunctiveGraph distributions (inplace on/off) and = plain validation of the graph expanded beforehand with inoculate + the same closure",
+                "(3) the property: random shapes/data x inference {none, rdfs, owlrl, both} x ontology {none, Graph, Dataset} x advanced x abort_on_first: the plain Graph's report = the report of 2 Dataset and 2 ConjunctiveGraph distributions (inplace on/off) and = plain validation of the graph expanded beforehand with inoculate + the same closure; (4) rule sets (TripleRule, SPARQLRule) feeding shapes, through validate(advanced) and shacl_rules(): Dataset / ConjunctiveGraph distributions (caller-built, default_union as rdflib creates them) = plain Graph",
         "distribution": dict(stats, tie_a_traces=len(bt), callee_cases=len(bq), model_disagreements=len(failed_t) + len(failed_q), differences=len(diffs), callee_errors=len(bad)),
         "samples": (mq[:1] + mt[:1]) or [{"note": "no cases"}],
         "exhaustive": False,
